@@ -245,7 +245,7 @@ def validate(db, ctx):
         for ifn, cond, pol, ek, ps in guarded_exits(f.hir):
             if mentions(cond, isb) and isv(cond):
                 vals = [eval3(cond, bound_cmp_evaluator(isb, p, isv)) for p in (-1, 0, 1)]
-                vals = [None if v is None else (v == pol) for v in vals]
+                vals = [bool(v is not None and v == pol) for v in vals]
                 found = (cond, vals, ek)
         ok = found is not None and found[1] == [False, True, True] and found[2] in ("err", "ret")
         ctx.ob("validate_entries|%s<%s" % (fld, bound), ok,
@@ -303,7 +303,7 @@ def validate(db, ctx):
     for ifn, cond, pol, ek, ps in guarded_exits(vw.hir):
         if mentions(cond, is_call_to("WordId::word")):
             vals = [eval3(cond, bound_cmp_evaluator(isb, p)) for p in (-1, 0, 1)]
-            vals = [None if v is None else (v == pol) for v in vals]
+            vals = [bool(v is not None and v == pol) for v in vals]
             found = (cond, vals, ek)
     ctx.ob("validate_wid|word<max", found is not None and found[1] == [False, True, True],
            "validate_wid: guard %s rejects(max-1,max,max+1)=%s" % (render(found[0]) if found else "MISSING",
